@@ -87,7 +87,11 @@ func (s *st) newLit(ty *m.Type) m.Expr {
 		return m.AsAny(&m.ArrLit{Ty: tNums, Elems: []m.Expr{m.NumLit(300 + n)}})
 	case m.Arr:
 		if ty.Sub.K == m.Any {
-			return &m.ArrLit{Ty: ty, Elems: []m.Expr{m.AsAny(m.NumLit(n)), m.AsAny(m.StrLit("z"))}}
+			// invariant for every []any value of a history: element 0 holds a non-empty []num, element 1 a {}num with key a
+			return &m.ArrLit{Ty: ty, Elems: []m.Expr{
+				m.AsAny(&m.ArrLit{Ty: tNums, Elems: []m.Expr{m.NumLit(n), m.NumLit(n + 0.5)}}),
+				m.AsAny(&m.MapLit{Ty: tMapN, Keys: []string{"a"}, Vals: []m.Expr{m.NumLit(n + 1000)}}),
+				m.AsAny(m.StrLit("z"))}}
 		}
 		return &m.ArrLit{Ty: ty, Elems: []m.Expr{s.newLit(ty.Sub), s.newLit(ty.Sub)}}
 	case m.Map:
@@ -169,7 +173,41 @@ func hasAny(t *m.Type) bool {
 
 func (s *st) step() {
 	v := s.anyVar()
-	k := rapid.IntRange(0, 21).Draw(s.t, "step")
+	k := rapid.IntRange(0, 25).Draw(s.t, "step")
+	if k >= 24 {
+		// repetition is the one operation that copies deeply: give it weight, on any array variable
+		var cs []vinfo
+		for _, x := range s.vars {
+			if x.ty.K == m.Arr {
+				cs = append(cs, x)
+			}
+		}
+		if len(cs) > 0 {
+			c := cs[rapid.IntRange(0, len(cs)-1).Draw(s.t, "reparray")]
+			s.made["repetition"] = true
+			s.declare(s.fresh(), c.ty, &m.Binary{Op: "*", L: &m.Var{Name: c.name, Ty: c.ty}, R: m.NumLit(float64(rapid.IntRange(1, 2).Draw(s.t, "times"))), Ty: c.ty})
+		}
+		return
+	}
+	if k >= 22 {
+		// composites held in any elements: take them out by type assertion (shares) and update them later
+		if a, ok := s.pick(tAnys); ok {
+			n := s.fresh()
+			guard := &m.Binary{Op: ">", L: &m.Call{Fn: "len", Args: []m.Expr{m.AsAny(a)}, Ty: m.TNum}, R: m.NumLit(1), Ty: m.TBool}
+			if k == 22 {
+				s.made["any-element-asserted-array"] = true
+				s.out = append(s.out, &m.Decl{Name: n, Ty: tNums, Typed: true}, &m.If{Conds: []m.Expr{guard},
+					Blocks: [][]m.Stmt{{&m.Assign{Target: &m.Var{Name: n, Ty: tNums}, Val: &m.Assert{X: &m.Index{X: a, I: m.NumLit(0), Ty: m.TAny}, Ty: tNums}}}}})
+				s.vars = append(s.vars, vinfo{n, tNums})
+			} else {
+				s.made["any-element-asserted-map"] = true
+				s.out = append(s.out, &m.Decl{Name: n, Ty: tMapN, Typed: true}, &m.If{Conds: []m.Expr{guard},
+					Blocks: [][]m.Stmt{{&m.Assign{Target: &m.Var{Name: n, Ty: tMapN}, Val: &m.Assert{X: &m.Index{X: a, I: m.NumLit(1), Ty: m.TAny}, Ty: tMapN}}}}})
+				s.vars = append(s.vars, vinfo{n, tMapN})
+			}
+		}
+		return
+	}
 	if k == 8 || k == 9 || k == 10 || k == 14 || k == 16 || k == 6 || k == 7 {
 		// steps about containers: prefer a container variable
 		var cs []vinfo
@@ -178,9 +216,14 @@ func (s *st) step() {
 				cs = append(cs, x)
 			}
 		}
-		if (k == 8 || k == 9 || k == 10 || k == 14 || k == 16) && len(cs) > 0 {
+		if (k == 8 || k == 9 || k == 10 || k == 14 || (k == 16 && rapid.Bool().Draw(s.t, "loopovercontainer"))) && len(cs) > 0 {
 			c := cs[rapid.IntRange(0, len(cs)-1).Draw(s.t, "container")]
 			v = &m.Var{Name: c.name, Ty: c.ty}
+		}
+	}
+	if k == 16 && v.Ty.K != m.Arr && v.Ty.K != m.Map && v.Ty.K != m.Str {
+		if nv, ok := s.pick(m.TNum); ok {
+			v = nv
 		}
 	}
 	ty := v.Ty
@@ -307,6 +350,50 @@ func (s *st) step() {
 			}
 			s.out = append(s.out, &m.Decl{Name: n, Ty: ty.Sub, Typed: true}, &m.ForIn{V: "e", X: v, Body: body})
 			s.vars = append(s.vars, vinfo{n, ty.Sub})
+		case ty.K == m.Num:
+			// numeric range: the loop variable's value is copied out through every kind of sink,
+			// or a variable is copied into the loop variable; the loop then goes on
+			s.made["loop-var-num"] = true
+			i := "i" + strconv.Itoa(s.n+1)
+			iv := &m.Var{Name: i, Ty: m.TNum}
+			var body []m.Stmt
+			nsinks := rapid.IntRange(1, 3).Draw(s.t, "nsinks")
+			for j := 0; j < nsinks; j++ {
+				switch rapid.IntRange(0, 5).Draw(s.t, "sink") {
+				case 0:
+					body = append(body, &m.Assign{Target: v, Val: iv})
+				case 1:
+					if a, ok := s.pick(tNums); ok {
+						body = append(body, &m.If{
+							Conds:  []m.Expr{&m.Binary{Op: ">", L: &m.Call{Fn: "len", Args: []m.Expr{m.AsAny(a)}, Ty: m.TNum}, R: m.NumLit(0), Ty: m.TBool}},
+							Blocks: [][]m.Stmt{{&m.Assign{Target: &m.Index{X: a, I: m.NumLit(0), Ty: m.TNum}, Val: iv}}},
+						})
+					}
+				case 2:
+					if mp, ok := s.pick(tMapN); ok {
+						body = append(body, &m.Assign{Target: &m.Dot{X: mp, Key: "loop", Ty: m.TNum}, Val: iv})
+					}
+				case 3:
+					if a, ok := s.pick(m.TAny); ok {
+						body = append(body, &m.Assign{Target: a, Val: m.AsAny(iv)})
+					}
+				case 4: // the other direction: a variable is copied into the loop variable
+					body = append(body, &m.Assign{Target: iv, Val: v})
+				default:
+					if a, ok := s.pick(tNums); ok {
+						body = append(body, &m.Assign{Target: a, Val: &m.Binary{Op: "+", L: a, R: &m.ArrLit{Ty: tNums, Elems: []m.Expr{iv}}, Ty: tNums}})
+					}
+				}
+			}
+			body = append(body, gen.Print(m.StrLit("in-loop"), iv, v))
+			f := &m.ForNum{V: i, Stop: m.NumLit(float64(rapid.IntRange(2, 4).Draw(s.t, "stop"))), Body: body}
+			switch rapid.IntRange(0, 2).Draw(s.t, "rangeform") {
+			case 1:
+				f.Start = m.NumLit(1)
+			case 2:
+				f.Start, f.Stop, f.Step = m.NumLit(3), m.NumLit(0), m.NumLit(-1)
+			}
+			s.out = append(s.out, f)
 		case ty.K == m.Str || ty.K == m.Map:
 			s.made["loop-var"] = true
 			n := s.fresh()
@@ -377,7 +464,7 @@ func TestProp(t *testing.T) {
 		for i := 0; i < nstart; i++ {
 			ty := pool[rapid.IntRange(0, len(pool)-1).Draw(t, "type")]
 			if i == 0 { // always at least one array
-				ty = []*m.Type{tNums, tNums2, tBools, tStrs}[rapid.IntRange(0, 3).Draw(t, "arrtype")]
+				ty = []*m.Type{tNums, tNums2, tBools, tStrs, tAnys, tAnys}[rapid.IntRange(0, 5).Draw(t, "arrtype")]
 			}
 			if ty.K == m.Any {
 				n := s.fresh()
